@@ -185,13 +185,10 @@ impl<'a> SessionData<'a> {
                             .filter(|id| *id != 0)
                             .ok_or(ProtocolError::MalformedPacket)?;
                         let duplicate = self.pending_server_packet_ids.contains(&packet_id);
-                        let reason = if !duplicate {
-                            self.pending_server_packet_ids
-                                .push(packet_id)
-                                .map(|_| ReasonCode::Success)
-                                .unwrap_or(ReasonCode::ReceiveMaxExceeded)
-                        } else {
+                        let reason = if duplicate || !self.pending_server_packet_ids.is_full() {
                             ReasonCode::Success
+                        } else {
+                            ReasonCode::ReceiveMaxExceeded
                         };
                         trace!(
                             "Queueing PUBREC for inbound QoS2 PUBLISH packet_id={=u16} duplicate={=bool} {}",
@@ -200,6 +197,12 @@ impl<'a> SessionData<'a> {
                         let action = ControlAction::PubRec { packet_id, reason };
                         check_control_packet_size(runtime.maximum_packet_size, action)?;
                         self.outbound.queue_control(action)?;
+                        if !duplicate && reason.success() {
+                            // Recorded only once the PUBREC is owed: a PUBLISH that could not be
+                            // acknowledged has not been delivered either, so the broker's
+                            // retransmission must not be taken for a duplicate.
+                            let _ = self.pending_server_packet_ids.push(packet_id);
+                        }
                         if duplicate || !reason.success() {
                             debug!(
                                 "Ignoring inbound QoS2 PUBLISH after PUBREC packet_id={=u16} duplicate={=bool} reason={}",
